@@ -1,5 +1,6 @@
 import LoraVerif.Model.Mac
 import LoraVerif.Gen.SessionStatic
+import LoraVerif.Props.TieA.Rx2Complete
 /-!
 # C06, tie A: the counter-exhaustion tests of `session.rs`
 
@@ -21,4 +22,21 @@ theorem tieA_fcntUpExhausted (n : Nat) :
 example : Gen.SessionStatic.Session.rx2_complete.fcnt_up_exhausted 4294967295 = true := by decide
 
 #print axioms tieA_fcntUpExhausted
+
+/-- builder L — the WHOLE method, not only its comparisons: the state-passing translation of the current
+source of `Session::rx2_complete` (`Gen/SessionFn.lean`; struct values in, `(Response, Session,
+Configuration)` out, checked arithmetic) never panics on a session whose counters fit `u32` and is the
+model's `rx2Complete` — in particular `fcnt_up` advances by exactly one unless it is `0xFFFF_FFFF`,
+in which case nothing changes and `SessionExpired` is reported (`C06.rx2Complete_fcnt` is about that
+model function).  Proved in `Props/TieA/Rx2Complete.lean`. -/
+theorem tieA_rx2_complete (s0 : Session) (gs : Gen.SessionFn.Session) (g : Gen.SessionFn.Configuration) (r : RegionId)
+    (hw : TieA.SessWF gs) :
+    (Gen.SessionFn.Session.rx2_complete gs g (TieA.regionOf r)).bind
+        (fun o => (TieA.respOf o.1).map (fun resp => (resp, TieA.sessOf s0 o.2.1, TieA.cfgOf o.2.2)))
+      = some (rx2Complete (TieA.sessOf s0 gs) (TieA.cfgOf g) r) :=
+  TieA.tieA_rx2_complete s0 gs g r hw
+
+example : TieA.SessWF ⟨false, 7, none, 95⟩ := by simp only [TieA.SessWF]; omega
+
+#print axioms tieA_rx2_complete
 end C06
